@@ -7,7 +7,7 @@ Import ListNotations.
 Require Import ITree.Model.Common ITree.Model.RBTree ITree.Model.MapModel ITree.Spec.MapSpec.
 Require Import ITree.Proofs.RBElems ITree.Proofs.RBInv ITree.Proofs.MapProofs ITree.Proofs.MapTheorems.
 Require ITree.Model.KeyModel ITree.Proofs.KeyListProofs ITree.Proofs.KeyTheorems.
-Require ITree.Model.ArenaModel ITree.Proofs.ArenaProofs ITree.Model.ArenaDelete ITree.Proofs.ArenaDeleteProofs.
+Require ITree.Model.ArenaModel ITree.Proofs.ArenaProofs ITree.Model.ArenaDelete ITree.Proofs.ArenaDeleteProofs ITree.Proofs.ArenaMap.
 
 (* insertion (the shared core of MapTree / SetTree / KeyExpTree::insert) keeps red-black validity *)
 Theorem C02_insert_rb : forall (ent: Type) (key_of: ent -> Z) (t: tree ent) (slot: N) (e: ent),
@@ -57,26 +57,26 @@ Qed.
    with consistent links ([Rep]: every child's parent field names the node it hangs from), then the
    arena-level insertion terminates within 2*height+2 loop iterations and the arena represents, again
    with consistent links, exactly the tree of the tree-level model used by every other theorem *)
-Theorem C02_arena_insert : forall (s: ArenaModel.astate) (t: tree ment) (ni: N) (e: ment) (fuel: nat),
+Theorem C02_arena_insert : forall (s: ArenaModel.astate ment) (t: tree ment) (ni: N) (e: ment) (fuel: nat),
   ArenaProofs.Rep s ArenaModel.EMPTY (ArenaModel.aroot s) t -> List.NoDup (slots ment t) ->
   ~ List.In ni (slots ment t) -> ni <> ArenaModel.EMPTY -> (2 * height ment t + 2 <= fuel)%nat ->
-  exists s', ArenaModel.arena_insert fuel s ni e = Ret s' /\
+  exists s', ArenaModel.arena_insert mkey fuel s ni e = Ret s' /\
              ArenaProofs.Rep s' ArenaModel.EMPTY (ArenaModel.aroot s') (insert_tree ment mkey t ni e).
-Proof. exact ArenaProofs.arena_insert_refines. Qed.
+Proof. exact (ArenaProofs.arena_insert_refines mkey). Qed.
 
 (* ... and as one step of the map / set: from any state satisfying the invariant, with the pool handing
    out the slot *)
-Theorem C02_arena_map_insert : forall (a: ArenaModel.astate) (s: mstate) (k v: Z),
+Theorem C02_arena_map_insert : forall (a: ArenaModel.astate ment) (s: mstate) (k v: Z),
   MInv s -> (forall e, List.In e (ents ment (root s)) -> fst e <> k) ->
   ArenaProofs.Rep a ArenaModel.EMPTY (ArenaModel.aroot a) (root s) -> (Pool.blen (pl s) < ArenaModel.EMPTY)%N ->
   exists s' a' i p', Pool.pool_get (pl s) = Some (i, p') /\ m_insert s k v = Ret s' /\
-    ArenaModel.arena_insert (2 * height ment (root s) + 2) a i (k, v) = Ret a' /\
+    ArenaModel.arena_insert mkey (2 * height ment (root s) + 2) a i (k, v) = Ret a' /\
     ArenaProofs.Rep a' ArenaModel.EMPTY (ArenaModel.aroot a') (root s') /\ MInv s'.
-Proof. exact ArenaProofs.arena_map_insert. Qed.
+Proof. exact ArenaMap.arena_map_insert. Qed.
 
 (* the harness's snapshot function (follow the links from the root, check each parent link) is the
    executable form of [Rep] *)
-Theorem C02_snapshot_is_rep : forall (fuel: nat) (s: ArenaModel.astate) (p x: N) (t: tree ment),
+Theorem C02_snapshot_is_rep : forall (fuel: nat) (s: ArenaModel.astate ment) (p x: N) (t: tree ment),
   ArenaProofs.read_tree fuel s p x = Some t -> ArenaProofs.Rep s p x t.
 Proof. exact ArenaProofs.read_tree_sound. Qed.
 
@@ -89,7 +89,7 @@ Proof. exact ArenaProofs.read_tree_sound. Qed.
    with EMPTY_REF, returns the slot the tree-level model frees, represents the tree-level result with
    consistent links again (the sentinel is unlinked), and writes nothing outside the tree's slots and
    the sentinel *)
-Theorem C02_arena_delete : forall (s: ArenaModel.astate) (t: tree ment) (x: N) (fuel: nat),
+Theorem C02_arena_delete : forall (s: ArenaModel.astate ment) (t: tree ment) (x: N) (fuel: nat),
   ArenaProofs.Rep s ArenaModel.EMPTY (ArenaModel.aroot s) t -> List.NoDup (slots ment t) ->
   ~ List.In 0%N (slots ment t) -> rbi ment t -> List.In x (slots ment t) -> (height ment t <= fuel)%nat ->
   exists t' d f s', del ment t x = Done t' d f /\
@@ -99,7 +99,7 @@ Theorem C02_arena_delete : forall (s: ArenaModel.astate) (t: tree ment) (x: N) (
 Proof. exact ArenaDeleteProofs.arena_delete_refines_frame. Qed.
 
 (* ... and as one step of the map / set (delete through a handle), with the pool taking the slot back *)
-Theorem C02_arena_map_delete : forall (a: ArenaModel.astate) (s: mstate) (x: N) (e: ment),
+Theorem C02_arena_map_delete : forall (a: ArenaModel.astate ment) (s: mstate) (x: N) (e: ment),
   MInv s -> List.In (x, e) (elements ment (root s)) ->
   ArenaProofs.Rep a ArenaModel.EMPTY (ArenaModel.aroot a) (root s) ->
   exists s' a' f, m_delete_at s x = Ret s' /\
@@ -107,4 +107,24 @@ Theorem C02_arena_map_delete : forall (a: ArenaModel.astate) (s: mstate) (x: N) 
     pl s' = Pool.pool_put (pl s) f /\
     ArenaProofs.Rep a' ArenaModel.EMPTY (ArenaModel.aroot a') (root s') /\ MInv s' /\
     (forall j, ~ List.In j (slots ment (root s)) -> j <> 0%N -> ArenaModel.nodes a' j = ArenaModel.nodes a j).
-Proof. exact ArenaDeleteProofs.arena_map_delete_at. Qed.
+Proof. exact ArenaMap.arena_map_delete_at. Qed.
+
+(* the two arena-level refinement theorems hold for every entity type and key function: the repair
+   loops, rotations and replace_parents_child are shared verbatim by MapTree, SetTree and KeyExpTree,
+   and nothing but the descent of insert_entity looks inside an entity (through its key) *)
+Theorem C02_arena_insert_any : forall (ent: Type) (key_of: ent -> Z)
+  (s: ArenaModel.astate ent) (t: tree ent) (ni: N) (e: ent) (fuel: nat),
+  ArenaProofs.Rep s ArenaModel.EMPTY (ArenaModel.aroot s) t -> List.NoDup (slots ent t) ->
+  ~ List.In ni (slots ent t) -> ni <> ArenaModel.EMPTY -> (2 * height ent t + 2 <= fuel)%nat ->
+  exists s', ArenaModel.arena_insert key_of fuel s ni e = Ret s' /\
+             ArenaProofs.Rep s' ArenaModel.EMPTY (ArenaModel.aroot s') (insert_tree ent key_of t ni e).
+Proof. intros ent key_of. exact (ArenaProofs.arena_insert_refines key_of). Qed.
+
+Theorem C02_arena_delete_any : forall (ent: Type) (s: ArenaModel.astate ent) (t: tree ent) (x: N) (fuel: nat),
+  ArenaProofs.Rep s ArenaModel.EMPTY (ArenaModel.aroot s) t -> List.NoDup (slots ent t) ->
+  ~ List.In 0%N (slots ent t) -> rbi ent t -> List.In x (slots ent t) -> (height ent t <= fuel)%nat ->
+  exists t' d f s', del ent t x = Done t' d f /\
+    ArenaDelete.arena_delete fuel s x = Ret (s', f) /\
+    ArenaProofs.Rep s' ArenaModel.EMPTY (ArenaModel.aroot s') t' /\
+    ArenaDeleteProofs.same_off (0%N :: slots ent t) s s'.
+Proof. intros ent. exact ArenaDeleteProofs.arena_delete_refines_frame. Qed.
